@@ -249,6 +249,55 @@ reg(
 )
 
 
+# Pages (page index of the compressed formats): persisted index == in-memory index after flush
+PFB = ("contract mode: Pages over a 48-byte page-index region (3 slots of 16 bytes), synced start state with n pages (n concrete per harness), "
+       "truncate point and push concrete per harness; page fields, file bytes and probe slot symbolic")
+PFS = [FMT, SBG, "Vec::with_capacity / Vec::reserve -> allocation-bounding stubs (bound 128 bytes)", TOVEC,
+       "rawdb layout lock -> cut (contract mode: the region never grows)"]
+PFD = ("Pages::{truncate,checked_push,flush} from a synced index: afterwards the page-index region is exactly 16 * pages long and holds exactly the in-memory "
+       "pages (bytes compared at a symbolic slot), nothing pending - so a re-import can never see a page beyond what the data region holds")
+reg(*[H(n, "vecdb", "C20", mem=10, timeout=900, tier=t, desc=PFD + " [" + sh + "]", bounds=PFB,
+        functions=["vecdb::Pages::{truncate,checked_push,flush,set_changed_at}", "rawdb::Region::truncate_write"], stubs=PFS)
+      for (n, t, sh) in [
+          ("c07_pf_n2_t0", "quick", "2 pages, truncate to 0"),
+          ("c07_pf_n1_t0", "quick", "1 page, truncate to 0"),
+          ("c07_pf_n2_t1", "quick", "2 pages, truncate to 1"),
+          ("c07_pf_n0_t0", "thorough", "empty, truncate to 0"),
+          ("c07_pf_n0_push", "thorough", "empty, push"),
+          ("c07_pf_n1_push", "thorough", "1 page, push"),
+          ("c07_pf_n1_t0_push", "thorough", "1 page, truncate to 0, push"),
+          ("c07_pf_n1_t1_push", "thorough", "1 page, no-op truncate, push"),
+          ("c07_pf_n2_push", "thorough", "2 pages, push"),
+          ("c07_pf_n2_t1_push", "thorough", "2 pages, truncate to 1, push"),
+          ("c07_pf_n2_none", "thorough", "2 pages, untouched"),
+          ("c07_pages_push_wrong_index", "thorough", "push at an index other than the length is refused with no effect"),
+      ]])
+
+# C14: import entry points over one raw Bytes region (stored length concrete per harness)
+C14B = ("contract mode: one region 'v/usize' of concrete length (0 / 20 / 32 / 38 / 40 bytes) over a 48-byte symbolic file; stored header version, "
+        "stored vector version (< 1000), stored format byte and the requested version (< 1000) symbolic")
+C14S = [FMT, SBG, WCAP0, TOVEC, "vecdb::vec_region_name -> \"v/usize\"",
+        "rawdb::Database::create_region_if_needed -> the harness's region (name resolution / allocation outside the claim)",
+        "rawdb::Database::get_region -> None (no holes region)", "rawdb::Database::remove_region_if_exists -> ghost 'removal' event; the re-creation after a discard is cut (create fails): decided is whether data is discarded, not the re-import"]
+C14D = ("ReadWriteRawVec::import_with / forced_import_with: a plain import accepts exactly an empty region or a stored (header version, version + layer constant, format) "
+        "that matches with an aligned payload, returns the stored length, never writes to an existing vector's region and never discards; a refused import "
+        "wrote nothing; the forced import keeps matching data and never discards on a non-version error")
+reg(*[H(n, "vecdb", "C14", mem=m, timeout=to, tier=t, known=k, desc=C14D + " [" + sh + "]", bounds=C14B,
+        functions=["vecdb::ReadWriteRawVec::{import_with,forced_import_with}", "vecdb::ReadWriteBaseVec::import", "vecdb::Header::{import_and_verify,create_and_write}", "vecdb::HeaderInner::{import_and_verify,write}"],
+        stubs=C14S)
+      for (n, t, m, to, k, sh) in [
+          ("c14_import_plain_len40", "quick", 10, 900, None, "plain import, header + 2 elements"),
+          ("c14_import_plain_len32", "quick", 10, 900, None, "plain import, header only"),
+          ("c14_import_plain_len20", "thorough", 10, 900, None, "plain import, region shorter than a header"),
+          ("c14_import_plain_len0", "quick", 10, 900, None, "plain import, empty region"),
+          ("c14_import_plain_len38", "thorough", 12, 1200, None, "plain import, misaligned payload"),
+          ("c14_import_forced_len0", "thorough", 16, 1800, None, "forced import, empty region"),
+          ("c14_import_forced_len40", "quick", 16, 900, "F06", "forced import, header + 2 elements"),
+          ("c14_import_forced_len32", "thorough", 16, 1800, "F06", "forced import, header only"),
+          ("c14_import_forced_len20", "thorough", 30, 2400, None, "forced import, region shorter than a header"),
+          ("c14_import_forced_len38", "thorough", 30, 2400, "F06", "forced import, misaligned payload"),
+      ]])
+
 reg(
     H("c15_delta_sub_reads", "vecdb", "C15", mem=8, timeout=900,
       desc="LazyDeltaVec<DeltaSub> over a mock source with a symbolic monotone window-start mapping (non-empty windows): range folds and point reads equal src[h] - src[start-1] (saturating; 0 look-back when start = 0), incl. ranges starting in the warm-up zone",
